@@ -244,16 +244,33 @@ Qed.
 
 (* ---------------------------------------------------------------------------------------------- *)
 (* local trapezoid model *)
+Lemma clamp_flat_id flat : ~ flat < 0 -> clamp_flat flat = flat.
+Proof.
+  intro H. unfold clamp_flat. destruct (Qltb flat 0) eqn:E.
+  - apply Qltb_lt in E. contradiction.
+  - rewrite andb_false_r. reflexivity.
+Qed.
+
+Lemma clamp_flat_noise flat : ~ (- rf_eps < flat /\ flat < 0) -> clamp_flat flat = flat.
+Proof.
+  intro H. unfold clamp_flat.
+  destruct (Qltb (- rf_eps) flat) eqn:E1; destruct (Qltb flat 0) eqn:E2;
+    rewrite ?andb_false_r, ?andb_true_r; cbn [andb]; try reflexivity; try (destruct trap_rejects_bad_times; reflexivity).
+  exfalso. apply H. split; apply Qltb_lt; assumption.
+Qed.
+
 Lemma trap_finish_ok mg ms amp rise flat fall g :
   trap_finish mg ms amp rise flat fall = Ok g ->
-  g_amp g = amp /\ g_rise g = rise /\ g_flat g = flat /\ g_fall g = fall /\
-  g_area g = amp * (flat + rise / 2 + fall / 2) /\ g_flat_area g = amp * flat /\ g_delay g = 0 /\
+  g_amp g = amp /\ g_rise g = rise /\ g_flat g = clamp_flat flat /\ g_fall g = fall /\
+  g_area g = amp * (clamp_flat flat + rise / 2 + fall / 2) /\ g_flat_area g = amp * clamp_flat flat /\ g_delay g = 0 /\
   Qabs amp <= mg + rf_eps.
 Proof.
   unfold trap_finish.
   destruct (Qltb (mg + rf_eps) (Qabs amp)) eqn:E1; [discriminate|].
   destruct (Qltb (ms * (1 + rf_eps)) (Qabs amp / rise)); [discriminate|].
   destruct (Qltb (ms * (1 + rf_eps)) (Qabs amp / fall)); [discriminate|].
+  cbv zeta.
+  destruct (trap_rejects_bad_times && (Qleb rise 0 || Qleb fall 0 || Qltb (clamp_flat flat) 0))%bool; [discriminate|].
   intro H. injection H as <-. cbn. apply Qltb_false in E1. repeat split; auto.
 Qed.
 
@@ -272,39 +289,69 @@ Proof.
 Qed.
 
 Lemma trap_flat_area_ok mg ms raster ft fa g :
+  0 <= ft ->
   trap_flat_area mg ms raster ft fa = Ok g ->
   ~ ft == 0 /\ g_amp g = fa / ft /\ g_flat g = ft /\ g_rise g = shortest_rise (fa / ft) ms raster /\
   g_fall g = g_rise g /\ g_delay g = 0 /\
   g_area g = g_amp g * (g_flat g + g_rise g / 2 + g_fall g / 2) /\ g_flat_area g = g_amp g * g_flat g /\
   Qabs (g_amp g) <= mg + rf_eps.
 Proof.
-  unfold trap_flat_area. destruct (Qeqb ft 0) eqn:E; [discriminate|].
+  intro P. unfold trap_flat_area. destruct (Qeqb ft 0) eqn:E; [discriminate|].
   intro H. apply trap_finish_ok in H. destruct H as (A & R & Fl & Fa & Ar & FA & D & L).
+  rewrite (clamp_flat_id ft) in * by lra.
   apply Qeqb_false in E. rewrite Ar, FA, A, R, Fl, Fa. repeat split; auto.
 Qed.
 
 Lemma trap_area_ok mg ms raster area g :
-  0 < mg -> 0 < raster ->
+  0 < mg -> 0 < raster -> rf_eps <= raster ->
   trap_area mg ms raster area = Ok g -> g_area g == area /\ g_delay g = 0 /\ g_fall g = g_rise g.
 Proof.
-  intros Hmg Hr. unfold trap_area.
+  intros Hmg Hr Hre. unfold trap_area.
   set (rise0 := Qmax (inject_Z (ceil_sqrt_over (Qabs area / ms) raster) * raster) raster).
   assert (P0 : 0 < rise0) by (apply Qmax_pos_r; exact Hr).
   destruct (Qltb (mg + rf_eps) (Qabs (area / rise0))) eqn:E.
   - apply Qltb_lt in E.
-    set (eff := inject_Z (Qceiling (Qabs area / mg / raster)) * raster).
-    set (rise := Qmax (inject_Z (Qceiling (Qabs (area / eff) / ms / raster)) * raster) raster).
-    intro H. apply trap_finish_ok in H. destruct H as (A & R & Fl & Fa & Ar & _ & D & _).
+    set (A := Qceiling (Qabs area / mg / raster)).
+    set (eff := inject_Z A * raster).
+    set (B := Qceiling (Qabs (area / eff) / ms / raster)).
+    set (rise := Qmax (inject_Z B * raster) raster).
+    intro H. apply trap_finish_ok in H. destruct H as (_ & R & Fl & Fa & Ar & _ & D & _).
     assert (Pa : 0 < Qabs area).
     { destruct (Qeq_dec area 0) as [Z|NZ].
       - exfalso. pose proof rf_eps_nonneg.
         assert (Qabs (area / rise0) == 0) by (rewrite Z; unfold Qdiv; rewrite Qmult_0_l; reflexivity). lra.
       - apply Qabs_pos_nz. exact NZ. }
-    assert (Pe : 0 < eff).
-    { unfold eff. apply Qmult_lt_0_compat; [|exact Hr]. apply Qceiling_pos.
+    assert (PA : 0 < inject_Z A).
+    { unfold A. apply Qceiling_pos.
       apply Qlt_shift_div_l; [exact Hr|]. rewrite Qmult_0_l. apply Qlt_shift_div_l; [exact Hmg|]. lra. }
+    assert (Pe : 0 < eff) by (unfold eff; apply Qmult_lt_0_compat; assumption).
+    assert (A1 : (1 <= A)%Z).
+    { assert (0 < A)%Z by (rewrite Zlt_Qlt; exact PA). lia. }
+    (* eff - rise is an integer number of raster steps: negative means <= -raster <= -eps, so no clamping *)
+    assert (NC : ~ (- rf_eps < eff - rise /\ eff - rise < 0)).
+    { intros [L1 L2]. unfold rise, Qmax in L1, L2.
+      destruct (Qle_bool (inject_Z B * raster) raster) eqn:EM.
+      - (* rise = raster *)
+        assert (M1 : 1 <= inject_Z A) by (rewrite Zle_Qle in A1; exact A1).
+        assert (M2 : raster <= eff).
+        { unfold eff. setoid_replace raster with (1 * raster) at 1 by ring. apply Qmult_le_compat_r; lra. }
+        lra.
+      - assert (HZ : (A - B <= -1)%Z).
+        { assert (M1 : inject_Z (A - B) * raster < 0).
+          { unfold Z.sub. rewrite inject_Z_plus, inject_Z_opp. unfold eff in L2. lra. }
+          assert (M2 : inject_Z (A - B) < 0).
+          { destruct (Qlt_le_dec (inject_Z (A - B)) 0) as [N|P]; [exact N|].
+            exfalso. assert (M0 : 0 <= inject_Z (A - B) * raster) by (apply Qmult_le_0_compat; lra). lra. }
+          assert (M3 : (A - B < 0)%Z) by (rewrite Zlt_Qlt; exact M2). lia. }
+        rewrite Zle_Qle in HZ. unfold Z.sub in HZ. rewrite inject_Z_plus, inject_Z_opp in HZ.
+        change (inject_Z (-1)) with (-1) in HZ.
+        assert (M4 : (inject_Z A + - inject_Z B) * raster <= -1 * raster) by (apply Qmult_le_compat_r; lra).
+        unfold eff in L1. lra. }
+    rewrite (clamp_flat_noise _ NC) in *.
     split; [rewrite Ar; field; lra|split; [exact D|rewrite Fa, R; reflexivity]].
-  - intro H. apply trap_finish_ok in H. destruct H as (A & R & Fl & Fa & Ar & _ & D & _).
+  - intro H. apply trap_finish_ok in H. destruct H as (_ & R & Fl & Fa & Ar & _ & D & _).
+    assert (NC : ~ rise0 - rise0 < 0) by lra.
+    rewrite (clamp_flat_id _ NC) in *.
     split; [rewrite Ar; field; lra|split; [exact D|rewrite Fa, R; reflexivity]].
 Qed.
 
@@ -392,7 +439,7 @@ Definition gz_part (fg : Q -> Q -> Q -> Q) (fr : Q -> Q -> Q) (mg ms raster dur 
   trap_flat_area mg ms raster dur area = Ok gz0 /\ couple fg fr raster r0 gz0 = (r, gz).
 
 Lemma gz_part_props fg fr mg ms raster dur area r0 gz0 r gz :
-  gz_delay_spec fg -> rf_delay_spec fr -> 0 < raster ->
+  gz_delay_spec fg -> rf_delay_spec fr -> 0 < raster -> 0 <= dur ->
   gz_part fg fr mg ms raster dur area r0 gz0 r gz ->
   (* flat top *)
   ~ dur == 0 /\ g_flat gz = dur /\ g_amp gz = area / dur /\ g_flat_area gz == area /\
@@ -408,8 +455,8 @@ Lemma gz_part_props fg fr mg ms raster dur area r0 gz0 r gz :
   r_phase r = r_phase r0 /\ r_dead r = r_dead r0 /\ r_ring r = r_ring r0 /\ r_use r = r_use r0 /\
   Qabs (g_amp gz) <= mg + rf_eps.
 Proof.
-  intros SG SR Hr [HT HC].
-  apply trap_flat_area_ok in HT. destruct HT as (NZ & A & Fl & R & Fa & D & Ar & FA & L).
+  intros SG SR Hr Hdur [HT HC].
+  apply (trap_flat_area_ok _ _ _ _ _ _ Hdur) in HT. destruct HT as (NZ & A & Fl & R & Fa & D & Ar & FA & L).
   pose proof (couple_keeps _ _ _ _ _ _ _ HC) as (K1 & K2 & K3 & K4 & K5 & K6 & K7 & K8 & G1 & G2 & G3 & G4 & G5 & G6).
   assert (D0 : g_delay gz0 == 0) by (rewrite D; reflexivity).
   pose proof (couple_delays _ _ _ _ _ _ _ SG SR Hr D0 HC) as (T1 & T2 & T3 & T4).
@@ -581,7 +628,8 @@ Section Shaped.
   Qed.
 
   (* slice-select gradient *)
-  Lemma shaped_gz gz gzr : g = Some (gz, gzr) -> 0 < s_grad_raster S -> 0 < override mg (s_max_grad S) ->
+  Lemma shaped_gz gz gzr : g = Some (gz, gzr) -> rf_eps <= s_grad_raster S -> 0 < s_grad_raster S ->
+    0 < override mg (s_max_grad S) -> 0 <= duration ->
     ~ duration == 0 /\ ~ th == 0 /\
     g_flat gz = duration /\ g_amp gz == bandwidth / th /\ g_flat_area gz == bandwidth / th * duration /\
     g_fall gz = g_rise gz /\ (exists k : Z, (1 <= k)%Z /\ g_rise gz = inject_Z k * s_grad_raster S) /\
@@ -594,13 +642,13 @@ Section Shaped.
     g_area gzr == - (g_flat_area gz) * (1 - cp) - (1 # 2) * (g_area gz - g_flat_area gz) /\
     (cp == 1 # 2 -> g_area gzr == - (g_area gz / 2)).
   Proof.
-    intros -> Hr Hmg.
+    intros -> Hre Hr Hmg Hdur.
     pose proof (make_shaped_inv _ _ _ _ _ _ _ _ _ _ _ _ _ _ _ _ _ _ _ _ _ H) as (_ & _ & _ & _ & G).
     cbv zeta in G. fold dwell in G. fold r0 in G. fold bandwidth in G. fold area in G.
     destruct G as (_ & TH & gz0 & GP & HR).
-    pose proof (gz_part_props _ _ _ _ _ _ _ _ _ _ _ SGd SRd Hr GP)
+    pose proof (gz_part_props _ _ _ _ _ _ _ _ _ _ _ SGd SRd Hr Hdur GP)
       as (NZ & Fl & A & FA & Fa & KR & Ar & Ar0 & T1 & T2 & T3 & T4 & _ & _ & _ & _ & _ & _ & _ & _ & L).
-    apply (trap_area_ok _ _ _ _ _ Hmg Hr) in HR. destruct HR as (RA & _ & _).
+    apply (trap_area_ok _ _ _ _ _ Hmg Hr Hre) in HR. destruct HR as (RA & _ & _).
     assert (EA : area == bandwidth / th * duration).
     { unfold area. rewrite (sp_area X SP), (sp_amplitude X SP). reflexivity. }
     assert (AM : g_amp gz == bandwidth / th).
@@ -791,7 +839,7 @@ Section Arb.
     unfold duration, arb_duration. reflexivity.
   Qed.
 
-  Lemma arb_gz gz : g = Some gz -> 0 < s_grad_raster Sy ->
+  Lemma arb_gz gz : g = Some gz -> 0 < s_grad_raster Sy -> 0 <= duration ->
     ~ duration == 0 /\ 0 < th /\
     g_flat gz = duration /\ g_amp gz == bandwidth / th /\
     g_fall gz = g_rise gz /\ (exists k : Z, (1 <= k)%Z /\ g_rise gz = inject_Z k * s_grad_raster Sy) /\
@@ -799,11 +847,11 @@ Section Arb.
     (exists k : Z, (0 <= k)%Z /\ g_delay gz == inject_Z k * s_grad_raster Sy) /\
     g_delay gz < Qmax (dead_time_rule (s_rf_dead Sy) delay - g_rise gz) 0 + s_grad_raster Sy.
   Proof.
-    intros -> Hr.
+    intros -> Hr Hdur.
     pose proof (make_arbitrary_inv _ _ _ _ _ _ _ _ _ _ _ _ _ _ _ _ _ _ H) as (_ & G).
     cbv zeta in G. fold dwell in G. fold r0 in G. fold duration in G. fold bandwidth in G. fold area in G.
     destruct G as (_ & TH & _ & gz0 & GP).
-    pose proof (gz_part_props _ _ _ _ _ _ _ _ _ _ _ arb_gz_delay_spec arb_rf_delay_spec Hr GP)
+    pose proof (gz_part_props _ _ _ _ _ _ _ _ _ _ _ arb_gz_delay_spec arb_rf_delay_spec Hr Hdur GP)
       as (NZ & Fl & A & FA & Fa & KR & Ar & Ar0 & T1 & T2 & T3 & T4 & _).
     repeat split; auto.
     rewrite A. unfold area, arb_area, arb_amplitude. field. split; (exact NZ || lra).
@@ -904,7 +952,8 @@ Section Adia.
     intros i Hi. apply adia_times_nth. exact Hi.
   Qed.
 
-  Lemma adia_gz gz gzr : g = Some (gz, gzr) -> 0 < s_grad_raster Sy -> 0 < s_max_grad Sy ->
+  Lemma adia_gz gz gzr : g = Some (gz, gzr) -> rf_eps <= s_grad_raster Sy -> 0 < s_grad_raster Sy -> 0 < s_max_grad Sy ->
+    0 <= duration ->
     ~ duration == 0 /\ 0 < th /\
     g_flat gz = duration /\ g_amp gz == bw / th /\
     g_fall gz = g_rise gz /\ (exists k : Z, (1 <= k)%Z /\ g_rise gz = inject_Z k * s_grad_raster Sy) /\
@@ -916,13 +965,13 @@ Section Adia.
     (adia_center_pos tc duration == tc / duration ->
        g_area gzr == - (g_amp gz * (duration - tc) + g_amp gz * g_fall gz / 2)).
   Proof.
-    intros -> Hr Hmg.
+    intros -> Hre Hr Hmg Hdur.
     pose proof (make_adiabatic_inv _ _ _ _ _ _ _ _ _ _ _ _ _ H) as (_ & _ & G).
     cbv zeta in G. fold dwell in G. fold r0 in G. fold area in G.
     destruct G as (_ & TH & gz0 & GP & HR).
-    pose proof (gz_part_props _ _ _ _ _ _ _ _ _ _ _ adia_gz_delay_spec adia_rf_delay_spec Hr GP)
+    pose proof (gz_part_props _ _ _ _ _ _ _ _ _ _ _ adia_gz_delay_spec adia_rf_delay_spec Hr Hdur GP)
       as (NZ & Fl & A & FA & Fa & KR & Ar & Ar0 & T1 & T2 & T3 & T4 & _).
-    apply (trap_area_ok _ _ _ _ _ Hmg Hr) in HR. destruct HR as (RA & _ & _).
+    apply (trap_area_ok _ _ _ _ _ Hmg Hr Hre) in HR. destruct HR as (RA & _ & _).
     assert (EA : area == bw / th * duration) by (unfold area, adia_area, adia_amplitude; reflexivity).
     assert (AM : g_amp gz == bw / th) by (rewrite A, EA; field; split; (exact NZ || lra)).
     assert (RG : g_area gzr == - area * (1 - adia_center_pos tc duration) - (1 # 2) * (g_area gz - area)).
